@@ -195,9 +195,9 @@ def gen_box(rng, dim, x0=None, shape=None):
     if shape == 'degenerate':
         i = rng.randrange(dim); hi[i] = lo[i]
     if shape == 'onesided':
-        i = rng.randrange(dim)
-        if rng.random() < 0.5: lo[i] = -INF
-        else: hi[i] = INF
+        for i in rng.sample(range(dim), rng.randint(1, min(2, dim))):
+            if rng.random() < 0.5: lo[i] = -INF
+            else: hi[i] = INF
     if shape == 'infinite':
         i = rng.randrange(dim); lo[i], hi[i] = -INF, INF
     return {'lo': lo, 'hi': hi, 'shape': shape}
